@@ -161,15 +161,15 @@ CHECKS["C16"] = dict(
 
 CHECKS["C03"] = dict(
     text="Reference procedures written in Gallina from the published text or source of each ecosystem (coq/Ref: Debian Policy 5.6.12, rpm's rpmvercmp.c, PMS Algorithms 3.1-3.7, SemVer 2.0 "
-         "section 11 as an inductive relation, the OPENSSL_VERSION_NUMBER order, pacman's version.c, Gem::Version, NuGet VersionComparer, Conan's documented rules, Maven ComparableVersion) and, "
+         "section 11 as an inductive relation, the OPENSSL_VERSION_NUMBER order, pacman's version.c, Gem::Version, NuGet VersionComparer, Conan's documented rules, Maven ComparableVersion, PEP 440) and, "
          "for deb, rpm, ebuild/alpine, the semver family and legacy openssl, theorems that the code-shaped model of the univers code computes the reference on every input of the stated "
          "domain (deb: all strings of the characters the validity check admits, through a finite check that the transcribed characters_order table is order-isomorphic to the policy's modified "
          "ASCII; rpm: all strings, by simulation of the two loops; gentoo: all accepted texts, with a finite check of the suffix table; semver: all versions; legacy openssl: unbounded numbers, "
-         "finite patch grammar). The models are tied to /repo by the scheme correspondence; every reference, including those without a code-shaped model (alpm, gem, nuget, conan, maven, openssl "
+         "finite patch grammar). The models are tied to /repo by the scheme correspondence; every reference, including those without a code-shaped model (alpm, gem, nuget, conan, maven, pypi, openssl "
          "dispatch), is run against the implementation on generated pairs (documentation shapes, grammar, near pairs with source-mined words, small alphabets).",
     ref="6 (C03)", technique="Coq proof (refinement of a code-shaped model to a reference procedure: simulation, order-isomorphism of tables, finite grammar sweeps) + reference/implementation correspondence",
-    note="PARTIAL in breadth: no theorem for alpm, gem, nuget, conan, maven and the openssl legacy/3.x dispatch (their references are compared with the implementation on generated pairs only); "
-         "pypi delegates to the third-party `packaging` library and has no reference here. Known finding: alpm follows msys2's vercmp, which differs from pacman where separator runs do not line up. "
+    note="PARTIAL in breadth: no theorem for alpm, gem, nuget, conan, maven, pypi (third-party `packaging`) and the openssl legacy/3.x dispatch (their references are compared with the implementation on "
+         "generated pairs only). Known finding: alpm follows msys2's vercmp, which differs from pacman where separator runs do not line up. "
          "Three defects found by this check were repaired by fix: commits (gentoo first component, openssl -pre, maven nested empty lists).")
 
 CHECKS["C06"] = dict(
